@@ -389,6 +389,26 @@ func (w *worker) checkSeq(file string, seq []add) {
 		} else if rerr != nil {
 			err = rerr
 		}
+		if err != nil && tie && untouched && !direct {
+			// a refusal of a set with two ranges at one offset is tolerated - but
+			// the client's seam (signers.ApplyBinPatch) must not refuse what the
+			// patch library itself applies to the same file by the same strategy
+			os.Remove(other)
+			os.Remove(link)
+			os.Remove(sym)
+			if werr := os.WriteFile(src, []byte(file), 0o644); werr == nil {
+				d2 := prep()
+				if q, lerr := binpatch.Load(dump); lerr == nil {
+					if f2, oerr := os.OpenFile(src, os.O_RDWR, 0); oerr == nil {
+						aerr := q.Apply(f2, d2)
+						f2.Close()
+						if g2, rerr := os.ReadFile(d2); aerr == nil && rerr == nil && expected[string(g2)] {
+							run.Violation("apply-refused-although-binpatch-applies-it:"+strategy, fmt.Sprintf("%s: signers.ApplyBinPatch: %v; binpatch.Load + Apply on the same file gives %q", desc, err, g2), map[string]any{"file": file, "seq": seq, "strategy": strategy})
+						}
+					}
+				}
+			}
+		}
 		check(strategy, got, err, untouched)
 		if err == nil && dest != src {
 			cur, _ := os.ReadFile(src)
